@@ -67,7 +67,8 @@ port_texts = st.one_of(
     st.integers(0, 70000).map(str),
     st.sampled_from(["0", "1", "80", "9090", "65535", "65536", "00080", "+5", "-5", " 5", "5 ", " 5 ", "5_5", "1_000",
                      "٥٥", "०१", "５", "5٥", "", "abc", "5a", "0x10", "1e3", "5.0", "--5", "+", "_5", "5_",
-                     "\n5", "5\n", "99999999999999999999", ":5", "5:6"]),
+                     "\n5", "5\n", "99999999999999999999", ":5", "5:6", "-99999999999999999999", "-9223372036854775809", "-9223372036854775808",
+                     "18446744073709551616", "18446744073709551615", "-1180591620717411303424", "1" + "0" * 40, "-" + "7" * 30]),
 )
 ipv6_hosts = st.one_of(
     st.sampled_from(["::1", "::", "fe80::1", "2001:db8::1", "1:2:3:4:5:6:7:8", "::ffff:127.0.0.1".replace(".", ":"), "fe80::1%1",
